@@ -306,7 +306,7 @@ func (g *G) constTree(t Ty, depth int) *Expr {
 		if leaf {
 			return &Expr{K: "float", F: float64(g.R.Intn(40)) / 4}
 		}
-		return &Expr{K: "bin", Op: []string{"+", "-", "*", "/"}[g.R.Intn(4)], A: []*Expr{g.constTree(TFloat, depth-1), g.constTree(TFloat, depth-1)}}
+		return &Expr{K: "bin", Op: []string{"+", "-", "*", "/", "%"}[g.R.Intn(5)], A: []*Expr{g.constTree(TFloat, depth-1), g.constTree(TFloat, depth-1)}}
 	case TStr:
 		if leaf {
 			return g.strLit()
@@ -452,7 +452,11 @@ func (g *G) expr2(t Ty, depth int) *Expr {
 				if g.R.Intn(6) == 0 {
 					d = g.Expr(TFloat, depth-1)
 				}
-				return &Expr{K: "bin", Op: "/", A: []*Expr{g.Expr(TFloat, depth-1), d}}
+				op := "/"
+				if g.F.Mod && g.R.Intn(3) == 0 {
+					op = "%"
+				}
+				return &Expr{K: "bin", Op: op, A: []*Expr{g.Expr(TFloat, depth-1), d}}
 			}
 		case 4:
 			return &Expr{K: "un", Op: "-", A: []*Expr{g.Expr(TFloat, depth-1)}}
@@ -644,6 +648,9 @@ func (g *G) matchExpr(t Ty, depth int) *Expr {
 	}
 	if scrT == TInt && g.R.Intn(2) == 0 {
 		b := g.fresh("m")
+		if vs := g.varsOf(TInt); len(vs) > 0 && g.R.Intn(2) == 0 {
+			b = vs[g.R.Intn(len(vs))] // the pattern variable shadows an outer variable inside its own arm only
+		}
 		g.push()
 		g.declare(b, TInt)
 		guard := &Expr{K: "bin", Op: []string{">", "<", ">="}[g.R.Intn(3)], A: []*Expr{{K: "var", S: b}, {K: "int", I: int64(g.R.Intn(8))}}}
